@@ -138,8 +138,11 @@ func (r *SimReader) read(p []byte) (int, error) {
 		n := give(op.N)
 		r.nerr++
 		var e error = &InjectedErr{ID: r.nerr}
-		if op.As == "ueof" {
+		switch op.As {
+		case "ueof":
 			e = io.ErrUnexpectedEOF
+		case "weof":
+			e = fmt.Errorf("upstream closed: %w", io.EOF) // not io.EOF itself, but errors.Is(e, io.EOF)
 		}
 		if r.FirstErr == nil {
 			r.FirstErr, r.FirstErrAt, r.FirstErrWith = e, before, r.pos
